@@ -433,7 +433,7 @@ def cases(tier: str, seed: int) -> List[Case]:
                                         timeout=60 if quick else 240, twin=True, vacuous_ok=True))
     for V in VALUES:
         for ok in _okinds(V):
-            out.append(Case("h02_bool", f"b:{M.tname(V)}|{ok}", {"V": V, "okind": ok}, timeout=60, twin=False))
+            out.append(Case("h02_bool", f"b:{M.tname(V)}|{ok}", {"V": V, "okind": ok}, timeout=60, twin=True, vacuous_ok=True))
     # `flag() or <cond>`: a disjunct without any constraint (extract_constraints on a union value)
     for V in [("union", ("int",), ("str",)), ("union", ("int",), ("none",)), ("union", ("lit", P0), ("lit", P1), ("str",)), ("union", ("enum",), ("none",))]:
         for cond in (["isinstance", "int"], ["is", "is", "None"], ["cmp", "==", "int"], ["truthy"], ["isinstance", "str"]):
